@@ -8,7 +8,8 @@
    roundReceived fields of a stored event, [lt_memo] the timestamp cache used by frames. *)
 From Coq Require Import ZArith List Bool Sorted Permutation.
 From V Require Import Model.ZMap Model.Quorum Model.HgImpl Proofs.AdmissionProofs Proofs.BlockInv
-  Proofs.OrderSort Proofs.OrderFrames Proofs.OrderProofs Proofs.Static Proofs.RoundReceived.
+  Proofs.OrderSort Proofs.OrderFrames Proofs.OrderProofs Proofs.Static Proofs.Agreement Proofs.RoundReceived
+  Proofs.Committed Proofs.CausalityWitness.
 Import ListNotations.
 Open Scope Z_scope.
 
@@ -193,10 +194,62 @@ Definition C04_rr_monotone_statement : Prop :=
     reach all st -> anc st a b -> get_event st a = Some ea -> get_event st b = Some eb ->
     ev_rr ea = Some ra -> ev_rr eb = Some rb -> ra <= rb.
 
-(* FULL STATEMENT: the committed order is a linear extension of ancestry across blocks.
-   Proved above: the case k = k' (C04_block_respects_ancestry).  Missing: k' < k is impossible
-   (C04_rr_monotone_statement + C02_rr_increasing) and an ancestor of a committed event is itself
-   committed. *)
+(* THE COMMITTED ORDER EXTENDS CAUSALITY (static membership).  A block is delivered only for a frame
+   that carries at least one transaction or internal transaction (Hashgraph.ProcessDecidedRounds /
+   process_frame), so the property is about ancestors WITH A PAYLOAD: if b is in the k-th delivered
+   block and a is a proper ancestor of b carrying a transaction, then a is in a delivered block too,
+   an earlier one, or the same one at an earlier position.  (The transactions of a are then
+   delivered before those of b: C04_event_contiguous, C04_delivered_payload.) *)
+Theorem C04_order_extends_causality : forall genesis all self_ oracle_ ops k d j b a ea,
+  ids_determine all -> no_accept all -> Forall (hop_ok all) ops ->
+  let st := hrun (init_hg self_ genesis oracle_) ops in
+  nth_error (delivered st) k = Some d -> nth_error (f_events (b_frame d)) j = Some b ->
+  anc st a (fe_id b) -> get_event st a = Some ea ->
+  (e_txs (ev_e ea) <> [] \/ e_itxs (ev_e ea) <> []) ->
+  exists k' d' i fa, nth_error (delivered st) k' = Some d' /\
+    nth_error (f_events (b_frame d')) i = Some fa /\ fe_id fa = a /\
+    ((k' < k)%nat \/ (k' = k /\ (i < j)%nat)).
+Proof. exact order_extends_causality_static. Qed.
+Print Assumptions C04_order_extends_causality.
+
+(* the same for the frame cache (Store.GetFrame), for every ancestor, payload or not: an ancestor of
+   an event of the cached frame of round R is in the cached frame of a round R' <= R *)
+Theorem C04_frames_extend_causality : forall genesis all self_ oracle_ ops R f b a,
+  ids_determine all -> no_accept all -> Forall (hop_ok all) ops ->
+  let st := hrun (init_hg self_ genesis oracle_) ops in
+  zget R (frames st) = Some f -> In b (f_events f) -> anc st a (fe_id b) ->
+  exists R' f' fa, zget R' (frames st) = Some f' /\ In fa (f_events f') /\ fe_id fa = a /\ R' <= R.
+Proof. exact frames_extend_causality_static. Qed.
+Print Assumptions C04_frames_extend_causality.
+
+(* an ancestor of an event received in a PROCESSED round (at or below the last consensus round) is
+   received, and not later *)
+Theorem C04_committed_ancestor : forall genesis all self_ oracle_ ops a b eb R,
+  ids_determine all -> no_accept all -> Forall (hop_ok all) ops ->
+  let st := hrun (init_hg self_ genesis oracle_) ops in
+  anc st a b -> get_event st b = Some eb -> ev_rr eb = Some R ->
+  (exists l, last_consensus st = Some l /\ R <= l) ->
+  exists ea R', get_event st a = Some ea /\ ev_rr ea = Some R' /\ R' <= R.
+Proof. exact committed_ancestor_o. Qed.
+Print Assumptions C04_committed_ancestor.
+
+(* every event received in a processed round is in the cached frame of that round, and, if it
+   carries a payload, in the frame of a delivered block of that round: the received set of a
+   processed round is complete and final *)
+Theorem C04_processed_rounds_complete : forall genesis all self_ oracle_ ops x ex R,
+  ids_determine all -> no_accept all -> Forall (hop_ok all) ops ->
+  let st := hrun (init_hg self_ genesis oracle_) ops in
+  get_event st x = Some ex -> ev_rr ex = Some R -> (exists l, last_consensus st = Some l /\ R <= l) ->
+  exists f, zget R (frames st) = Some f /\ In x (map fe_id (f_events f)) /\
+    ((e_txs (ev_e ex) <> [] \/ e_itxs (ev_e ex) <> []) ->
+     exists d, In d (delivered st) /\ b_rr d = R /\ b_frame d = f).
+Proof. exact (fun g all s o ops x ex R ID NA H => pi_db _ (hrun_pinv g all ID NA s o ops H) x ex R). Qed.
+Print Assumptions C04_processed_rounds_complete.
+
+(* REFUTED: the literal form "every ancestor of a committed event is in a delivered block" (without
+   the payload premise).  Frames without transactions produce no block; in the 15-event, two-validator
+   history Proofs/CausalityWitness.v (cw) the only delivered block holds events 2..6 and the parents
+   0, 1 of event 2 (received in round 1, frame without transactions) are in no block. *)
 Definition C04_order_extends_causality_statement : Prop :=
   forall all st k d j b a,
     reach all st -> nth_error (delivered st) k = Some d ->
@@ -204,6 +257,26 @@ Definition C04_order_extends_causality_statement : Prop :=
     exists k' d' i fa, nth_error (delivered st) k' = Some d' /\
       nth_error (f_events (b_frame d')) i = Some fa /\ fe_id fa = a /\
       ((k' < k)%nat \/ (k' = k /\ (i < j)%nat)).
+Theorem C04_order_extends_causality_statement_refuted : ~ C04_order_extends_causality_statement.
+Proof. exact cw_literal_refuted. Qed.
+Print Assumptions C04_order_extends_causality_statement_refuted.
+
+(* REFUTED: "an ancestor of an event that has a round-received number has one too" (for rounds not
+   yet processed).  DecideRoundReceived stops, for an event of round r, at the first undecided round
+   above r; when round 2 is held undecided by a late witness and round 3 is decided, the events of
+   round 2 are received in round 3 while their round-1 ancestors still wait for round 2.  55-event,
+   four-validator history found by build/sim (seed 1): Proofs/CausalityWitness.v (aw), event 18 has
+   round-received 3, its self-parent 17 has none.  Nothing is committed from round 3 before round 2
+   (C02 queue order), which is why C04_committed_ancestor holds. *)
+Definition C04_ancestor_received_statement : Prop :=
+  forall genesis all self_ oracle_ ops a b eb r,
+    ids_determine all -> no_accept all -> fork_free all -> Forall (hop_ok all) ops ->
+    let st := hrun (init_hg self_ genesis oracle_) ops in
+    anc st a b -> get_event st b = Some eb -> ev_rr eb = Some r ->
+    exists ea r', get_event st a = Some ea /\ ev_rr ea = Some r'.
+Theorem C04_ancestor_received_statement_refuted : ~ C04_ancestor_received_statement.
+Proof. exact aw_ancestor_refuted. Qed.
+Print Assumptions C04_ancestor_received_statement_refuted.
 
 (* non-vacuity: two validators gossiping in ping-pong; event k has self-parent k-2 and
    other-parent k-1, carries transaction k.  Nine blocks are delivered; each frame holds two events,
